@@ -191,6 +191,8 @@ EXPECT["char"] = ("repr::Repr::from_char", None)
 EXPECT["alloc::string::String"] = ("alloc::string::String::as_str", None)
 EXPECT["LeanString"] = ("<LeanString as core::clone::Clone>::clone", None)
 
+STRING_VIEWS = ("alloc::string::String::as_str", "<alloc::string::String as core::ops::deref::Deref>::deref", "<alloc::string::String as core::convert::AsRef<str>>::as_ref",
+                "<alloc::string::String as core::borrow::Borrow<str>>::borrow", "alloc::string::String::as_bytes")
 SKIP_PREFIX = ("castaway::", "<core::result::Result<", "core::ops::", "<&")
 
 
@@ -258,6 +260,8 @@ def rule_dispatch(ctx, rule="DISPATCH", want=None):
             continue
         n = callee_name(ht)
         ok = n == exp[0]
+        if x == "alloc::string::String" and n in STRING_VIEWS:
+            ok = True      # `&*s`, `s.as_ref()`, `s.borrow()`: the String's text, like `s.as_str()`
         why = "handler %s" % n
         if ok and exp[1] is not None:
             ga = ht.get("generic_args", [])
